@@ -57,7 +57,10 @@ def gen_program(rng, quick=True):
                     removed.add(procs[t])
             ops.append([k])
         threads.append(ops)
-    return {"procs": procs, "threads": threads}
+    # how each child process got its logger: "pickle" = what a spawned child receives (Handler.__getstate__),
+    # "fork" = the memory copy a raw os.fork() child inherits (every attribute verbatim, owner bookkeeping included)
+    kinds = {str(p): rng.choice(["pickle", "fork"]) for p in sorted(set(procs)) if p != 0}
+    return {"procs": procs, "threads": threads, "kinds": kinds}
 
 
 class Run:
@@ -79,7 +82,11 @@ class Run:
             blob = pickle.dumps(logger)
             for p in sorted(set(prog["procs"])):
                 if p != 0:
-                    child = pickle.loads(blob)
+                    if prog.get("kinds", {}).get(str(p)) == "fork":
+                        child = sched.fork_copy_logger(
+                            logger, p, lambda o: sched.TracingSink("s0@%d" % p) if o is snk else None)
+                    else:
+                        child = pickle.loads(blob)
                     object.__getattribute__(child._core, "lock").tag = "core@%d" % p
                     for h in child._core.handlers.values():
                         object.__getattribute__(h, "_lock").tag = "h@%d" % p
@@ -360,21 +367,26 @@ def stream_sched(ctx):
 def stream_mp(ctx):
     from harness import c03_child
     rng = ctx.rng.fork("mp")
-    grid = [("fork", 2, 2, 15), ("fork", 3, 1, 10), ("spawn", 2, 1, 8), ("forkserver", 1, 2, 6)]
+    # "osfork" = children created by a raw os.fork() (multiprocessing does not know them)
+    grid = [("fork", 2, 2, 15), ("fork", 3, 1, 10), ("spawn", 2, 1, 8), ("forkserver", 1, 2, 6), ("osfork", 2, 2, 10),
+            ("osfork", 1, 1, 5)]
     if not ctx.quick:
-        grid = [(m, n, t, k) for m in ("fork", "spawn", "forkserver") for n in (1, 2, 3, 4) for t in (1, 2, 3)
-                for k in (5, 40)]
-    for method, nproc, nthr, k in grid:
+        grid = [(m, n, t, k) for m in ("fork", "spawn", "forkserver", "osfork") for n in (1, 2, 3, 4)
+                for t in (1, 2, 3) for k in (5, 40)]
+    for gi, (method, nproc, nthr, k) in enumerate(grid):
         base = tempfile.mkdtemp(prefix="verif_c03_")
+        child_remove = rng.chance(50) if gi >= 6 or method != "osfork" else gi == 4
         try:
             res = c03_child.parent_run(method, nproc, nthr, k, os.path.join(base, "out.log"),
-                                       child_remove=rng.chance(50), repo=core.REPO)
+                                       child_remove=child_remove, repo=core.REPO)
         finally:
             shutil.rmtree(base, ignore_errors=True)
         ctx.case(("mp", method, nproc, nthr, k), nontrivial=(nproc >= 2))
         ctx.stat("mp:" + method)
+        ctx.stat("mp:child_remove" if child_remove else "mp:child_keeps_handler")
         if res["bad"]:
             ctx.violation(res["bad"][0], {"stream": "mp", "method": method, "nproc": nproc, "nthr": nthr, "k": k,
+                                          "child_remove": child_remove,
                                           "violations": res["bad"][:5]})
     ctx.sample({"stream": "mp", "grid": grid[:4]})
 
@@ -472,8 +484,149 @@ def stream_shapes(ctx):
             break
 
 
+# ----------------------------------------------------------------------------- (v) payloads: records that carry an exception
+class _Boom(Exception):
+    """exception value whose pickling / unpickling fails in a configurable way"""
+
+    def __init__(self, how, err):
+        super().__init__("boom %s %s" % (how, err))
+        self.how, self.err = how, err
+
+    def __reduce__(self):
+        if self.how == "dumps":
+            raise _ERRS[self.err]("cannot pickle (%s)" % self.err)
+        if self.how == "loads":
+            return (_fail_loading, (self.err,))
+        if self.how == "deep":
+            x = []
+            for _ in range(100000):
+                x = [x]
+            return (_Boom, ("ok", "-"), {"nest": x})       # RecursionError while pickling the state
+        return (_Boom, (self.how, self.err))
+
+
+def _fail_loading(err):
+    raise _ERRS[err]("cannot unpickle (%s)" % err)
+
+
+class _HarnessError(Exception):
+    pass
+
+
+_ERRS = {"PicklingError": pickle.PicklingError, "TypeError": TypeError, "AttributeError": AttributeError,
+         "ValueError": ValueError, "RuntimeError": RuntimeError, "NotImplementedError": NotImplementedError,
+         "KeyError": KeyError, "OSError": OSError, "ZeroDivisionError": ZeroDivisionError,
+         "RecursionError": RecursionError, "UnpicklingError": pickle.UnpicklingError, "EOFError": EOFError,
+         "custom": _HarnessError}
+
+
+def _picklable(o):
+    try:
+        pickle.dumps(o)
+        return True
+    except Exception:
+        return False
+
+
+def _payload(rng):
+    k = rng.below(10)
+    if k < 2:
+        return ("plain", ValueError("plain %d" % rng.below(100)))
+    if k < 3:
+        return ("local-attr", type("Local", (Exception,), {})("defined in a function: not importable"))
+    if k < 4:
+        e = RuntimeError("carries a lambda")
+        e.callback = lambda: None
+        return ("lambda-attr", e)
+    if k < 5:
+        return ("deep", _Boom("deep", "-"))
+    how = "dumps" if k < 8 else "loads"
+    err = rng.choice(sorted(_ERRS))
+    return ("%s:%s" % (how, err), _Boom(how, err))
+
+
+def stream_payloads(ctx):
+    """every accepted message is written exactly once and in order whatever exception value its record carries:
+    the value may refuse to be pickled or unpickled with ANY Exception class (the record then arrives without it)"""
+    import loguru._logger as lg
+    rng = ctx.rng.fork("payloads")
+    def _local():
+        class Local(Exception):
+            pass
+        return Local("class defined in a function")
+
+    fixed = [("local-class", _local()), ("dumps:ValueError", _Boom("dumps", "ValueError")),
+             ("dumps:RuntimeError", _Boom("dumps", "RuntimeError")), ("loads:KeyError", _Boom("loads", "KeyError")),
+             ("deep", _Boom("deep", "-")), ("plain", ValueError("plain")), ("none", None)]
+    for ci in range(ctx.n(12, 150)):
+        r0 = rng.fork("c%d" % ci)
+        if ci == 0:
+            items = fixed            # regression case (F28 and one of every failure class) runs first
+        else:
+            items = [_payload(r0) if r0.chance(75) else ("none", None) for _ in range(r0.range(2, 6))]
+        got = []
+        logger = lg.Logger(core=lg.Core(), exception=None, depth=0, record=False, lazy=False, colors=False, raw=False,
+                           capture=True, patchers=[], extra={})
+        catch = r0.chance(50)
+        fmt = r0.choice(["{message}", "{message}|{exception}"])
+        import io
+        import contextlib
+        err = io.StringIO()
+        hid = logger.add(lambda m: got.append((m.record["message"], m.record["exception"])), enqueue=True, format=fmt,
+                         catch=catch, backtrace=False, diagnose=False)
+        bad, raised = [], []
+        done = threading.Event()
+
+        def work():
+            with contextlib.redirect_stderr(err):
+                for i, (kind, exc) in enumerate(items):
+                    try:
+                        if exc is None:
+                            logger.info("m%d" % i)
+                        else:
+                            logger.opt(exception=exc).info("m%d" % i)
+                    except BaseException as e:       # catch=False: a failing put reaches the caller
+                        raised.append((i, kind, repr(e)))
+                logger.complete()
+            done.set()
+        th = threading.Thread(target=work, daemon=True)
+        th.start()
+        desc = [k for k, _ in items]
+        if not done.wait(30):
+            bad.append("complete() did not return within 30 s after logging exception payloads %r" % (desc,))
+        else:
+            if raised:
+                bad.append("logging call %d (exception payload %s) raised %s" % raised[0])
+            want = ["m%d" % i for i in range(len(items))]
+            if [m for m, _ in got] != want:
+                bad.append("enqueue handler wrote %r for the accepted messages %r (exception payloads %r)%s"
+                           % ([m for m, _ in got], want, desc,
+                              "; reported on stderr: " + err.getvalue().strip().splitlines()[-1][:120]
+                              if err.getvalue().strip() else ""))
+            else:
+                for (m, rexc), (kind, exc) in zip(got, items):
+                    if (exc is None) != (rexc is None):
+                        bad.append("message %s: record['exception'] is %r for payload %s" % (m, rexc, kind))
+                    elif exc is not None and rexc.type is not type(exc) and not (rexc.type is None and not _picklable(type(exc))):
+                        bad.append("message %s: exception type %r became %r" % (m, type(exc), rexc.type))
+                    elif exc is not None and kind == "plain" and repr(rexc.value) != repr(exc):
+                        bad.append("message %s: picklable exception value %r arrived as %r" % (m, exc, rexc.value))
+        rdone = threading.Event()
+        threading.Thread(target=lambda: (logger.remove(hid), rdone.set()), daemon=True).start()
+        if not rdone.wait(20) and not bad:
+            bad.append("remove() did not return within 20 s")
+        ctx.case(("payloads", tuple(desc), catch, fmt), nontrivial=any(k not in ("none", "plain") for k in desc))
+        for k in desc:
+            ctx.stat("payload:" + k.split(":")[0])
+        if bad:
+            ctx.violation(bad[0], {"stream": "payloads", "case": ci, "payloads": desc, "catch": catch, "format": fmt,
+                                   "violations": bad[:5]})
+            break
+
+
 def run(ctx):
     stream_shapes(ctx)
+    stream_payloads(ctx)
     stream_sched(ctx)
     stream_mp(ctx)
     stream_asyncio(ctx)
@@ -492,7 +645,7 @@ def replay(ctx, rep):
         base = tempfile.mkdtemp(prefix="verif_c03_")
         try:
             bad = c03_child.parent_run(r["method"], r["nproc"], r["nthr"], r["k"], os.path.join(base, "o.log"),
-                                       child_remove=True, repo=core.REPO)["bad"]
+                                       child_remove=r.get("child_remove", True), repo=core.REPO)["bad"]
         finally:
             shutil.rmtree(base, ignore_errors=True)
     else:
